@@ -67,17 +67,170 @@ def showRes (d : NT) : Option Val → String
   | none => "ok -"
   | some v => "ok " ++ showVal d v
 
+/-! ### Arm tags (which branch of the model an op took) and the list of all reachable arms -/
+
+/-- relation of `x` to the boundaries of the interval `[lo, hi]` -/
+def rel (lo hi x : Int) : String :=
+  if x < lo - 1 then "lt-min" else if x = lo - 1 then "min-1" else if x = lo then "min"
+  else if x = hi + 1 then "max+1" else if x > hi + 1 then "gt-max" else if x = hi then "max" else "mid"
+
+/-- how `rneShift m s` rounds -/
+def rneArm (m s : Nat) : String :=
+  let g := 2 ^ s
+  let r := m % g
+  if r = 0 then "exact" else if 2 * r < g then "down" else if 2 * r > g then "up"
+  else if m / g % 2 = 1 then "tie-up" else "tie-down"
+
+def intToFlArm (f : Fmt) (x : Int) : String :=
+  let m := x.natAbs
+  let sign := if x < 0 then "n-" else "p-"
+  if m = 0 then "zero"
+  else
+    let l := bitLen m
+    let p := f.mbits + 1
+    if l ≤ p then sign ++ "fits"
+    else
+      let a := rneArm m (l - p)
+      sign ++ a ++ (if rneShift m (l - p) = 2 ^ p then "-carry" else "")
+
+def flClass (f : Fmt) : Fl → String
+  | .nan => "nan"
+  | .inf neg => if neg then "ninf" else "pinf"
+  | .fin neg m e =>
+    (if neg then "n" else "p") ++
+      (if m = 0 then "zero" else if (e : Int) + bitLen m ≤ f.qmin + f.mbits then "sub" else "norm")
+
+def convertArm (s d : NT) (v : Val) : String :=
+  if s = d then "same"
+  else match convertKind s d, v with
+    | .none, _ => "none"
+    | .wrap, .int x => "wrap-" ++ (if x = s.minV then "srcmin" else if x = s.maxV then "srcmax" else "mid")
+    | .guardNeg, .int x =>
+      "guard-" ++ (if x < -1 then "neg" else if x = -1 then "m1" else if x = 0 then "zero"
+        else if x = s.maxV then "srcmax" else "pos")
+    | .checked, .int x => "chk-" ++ rel d.minV d.maxV x
+    | .toFloat, .int x => "tofl-" ++ intToFlArm (fmtOf d) x
+    | .fwiden, .flt x => "widen-" ++ flClass fmt32 x
+    | _, _ => "?"
+
+def narrowArm (x : Fl) : String :=
+  match x with
+  | .nan => "nan"
+  | .inf _ => "inf"
+  | .fin _ m e =>
+    if m = 0 then "zero"
+    else match roundFmt fmt32 false m e with
+      | .inf _ => "ovf"
+      | .fin _ m' q =>
+        let exact := decide ((if q ≤ e then m * 2 ^ (e - q).toNat = m' else m = m' * 2 ^ (q - e).toNat))
+        if m' = 0 then "uflow0"
+        else (if (q : Int) + bitLen m' ≤ fmt32.qmin + fmt32.mbits then "sub-" else "norm-") ++
+          (if exact then "exact" else "round")
+      | .nan => "?"
+
+def boolIntArm (x : Int) : String :=
+  if x = 1 then "one" else if x = 0 then "zero" else if x = 2 then "two" else if x = -1 then "m1"
+  else if x < 0 then "neg" else "big"
+
+def floatToIntArm (d : NT) (x : Fl) : String :=
+  match x with
+  | .nan => "nan"
+  | .inf neg => if neg then "ninf" else "pinf"
+  | .fin neg m e =>
+    let round :=
+      if e ≥ 0 then "int"
+      else
+        let g := 2 ^ (-e).toNat
+        let fr := m % g
+        if fr = 0 then "int" else if 2 * fr < g then "down" else if 2 * fr > g then "up" else "tie"
+    let r := match flRound x with
+      | .fin n k q => truncInt n k q
+      | _ => 0
+    (if neg then "n" else "p") ++ round ++ "-" ++
+      (if r > i128Max ∨ r < i128Min then "huge" else rel d.minV d.maxV r)
+
+def explicitArm (s d : NT) (v : Val) : String :=
+  match castKind s d, v with
+  | .none, _ => "none"
+  | .toBool, .int x => "bool-" ++ boolIntArm x
+  | .toBool, .flt x =>
+    (match x with
+     | .nan => "bool-nan"
+     | .inf _ => "bool-inf"
+     | .fin neg m e => "bool-" ++ (if neg then "n" else "p") ++ (if e < 0 ∧ m % 2 ^ (-e).toNat ≠ 0 then "frac-" else "int-")
+          ++ boolIntArm (satCast i64Min i64Max x))
+  | .toInt, .int x => "int-" ++ rel d.minV d.maxV x
+  | .toInt, .flt x => "flt-" ++ floatToIntArm d x
+  | .narrow, .flt x => "narrow-" ++ narrowArm x
+  | _, _ => "?"
+
+def opArms (op : String) (s d : NT) (v : Val) : List String :=
+  let pair := ntStr s ++ ">" ++ ntStr d
+  if op = "convert" then [s!"cv:{pair}:{convertArm s d v}"]
+  else
+    match convert s d v with
+    | some _ => [s!"ct:{pair}:c-{convertArm s d v}"]
+    | none => [s!"ct:{pair}:c-{convertArm s d v}/x-{explicitArm s d v}"]
+
+/-- is the dyadic ±m·2^e a value of the format? -/
+def representable (f : Fmt) (m : Nat) (e : Int) : Bool :=
+  match roundFmt f false m e with
+  | .fin _ m' q => if q ≤ e then m * 2 ^ (e - q).toNat == m' else m == m' * 2 ^ (q - e).toNat
+  | _ => false
+
+def intTypes : List NT := [.boolean, .sbyte, .byte, .int16, .uint16, .int32, .uint32, .int64, .uint64]
+
+/-- boundary candidates for an integer source type -/
+def intCands (s : NT) : List Int :=
+  let bounds := intTypes.flatMap fun t => [t.minV - 1, t.minV, t.minV + 1, t.maxV - 1, t.maxV, t.maxV + 1]
+  let rounding := [24, 53].flatMap fun (p : Nat) =>
+    let b : Int := 2 ^ p
+    [b - 1, b, b + 1, b + 2, b + 3, 2 * b + 1, 2 * b + 2, 2 * b + 3, 2 * b + 6, 4 * b + 4, 4 * b + 12]
+  let all := [-3, -2, -1, 0, 1, 2, 3] ++ bounds ++ rounding ++ rounding.map (fun x => -x)
+  (all.filter fun x => decide (inRange s x)).eraseDups
+
+/-- boundary candidates for a float source type (exact values) -/
+def fltCands (f : Fmt) (d : NT) : List Fl :=
+  let quarter (n : Int) : Option Fl :=          -- n/4
+    if representable f n.natAbs (-2) then some (.fin (decide (n < 0)) n.natAbs (-2)) else none
+  let bounds := (if d.isInt && d != .boolean then [d] else []).flatMap fun t =>
+    [t.minV - 1, t.minV, t.maxV, t.maxV + 1].flatMap fun b =>
+      ((List.range 21).map fun (i : Nat) => (i : Int) - 10).filterMap fun k => quarter (4 * b + k)
+  let small := ([-14, -13, -12, -10, -7, -6, -5, -4, -3, -2, -1, 1, 2, 3, 4, 5, 6, 7, 10, 12, 13, 14] : List Int).filterMap quarter
+  let pow (neg : Bool) (k : Int) : Option Fl := if representable f 1 k then some (.fin neg 1 k) else none
+  let pows := ([100, 126, 127, 128, 130, 200, -30, -126, -127, -140, -149, -150, -160, -1074] : List Int).flatMap fun k =>
+    [pow false k, pow true k].filterMap id
+  let odd : List Fl :=     -- values that need rounding when narrowed to f32
+    ([(16777217, 0), (16777219, 0), (33554434, 0), (33554438, 0), (16777217, 104), (16777215, 104),
+      (16777217, -170), (3, -150), (1, -150), (16777217, -173)] : List (Nat × Int)).filterMap fun (m, e) =>
+      if representable f m e then some (.fin false m e) else none
+  let odd := odd ++ odd.map fun x => match x with | .fin _ m e => .fin true m e | y => y
+  [.nan, .inf false, .inf true, .fin false 0 0, .fin true 0 0] ++ bounds ++ small ++ pows ++ odd
+
+def candsOf (s d : NT) : List Val :=
+  if s = .float then (fltCands fmt32 d).map .flt
+  else if s = .double then (fltCands fmt64 d).map .flt
+  else (intCands s).map .int
+
+/-- every arm tag that the boundary candidates of every type pair reach (the declared arms) -/
+def allArms : List String :=
+  (NT.all.flatMap fun s => NT.all.flatMap fun d => (candsOf s d).flatMap fun v =>
+    opArms "convert" s d v ++ opArms "cast" s d v)
+
 def dstep (_ : Unit) (toks : List String) : Unit × String :=
   match toks with
   | ["reset"] => ((), "ok")
+  | ["arms"] => ((), "ok " ++ " ".intercalate allArms)      -- developer op: lists the declared arms
   | [op, s, d, v] =>
     match parseNT? s, parseNT? d with
     | some s, some d =>
       match parseVal? s v with
       | some v =>
         if !wellTyped s v then ((), "bad-op")
-        else if op = "convert" then ((), showRes d (convert s d v))
-        else if op = "cast" then ((), showRes d (cast s d v))
+        else if op = "convert" then
+          ((), showRes d (convert s d v) ++ " @@ " ++ ",".intercalate (opArms op s d v))
+        else if op = "cast" then
+          ((), showRes d (cast s d v) ++ " @@ " ++ ",".intercalate (opArms op s d v))
         else ((), "bad-op")
       | none => ((), "bad-op")
     | _, _ => ((), "bad-op")
